@@ -1,10 +1,11 @@
 package c01
 
 import (
-	"sync"
 	"crypto/tls"
 	"encoding/binary"
 	"fmt"
+	"strings"
+	"sync"
 	"time"
 
 	"golang.org/x/crypto/ssh"
@@ -112,7 +113,15 @@ func sshSpecial(cc *lab.CliConn, s gen.Service, sc scenario, c int) (reply int) 
 					return
 				}
 				if typ == "shell" {
-					withTimeout(time.Second, func() { ch.Write([]byte("ls\nexit\n")) })
+					// what people and bots type into a shell: commands, blank and whitespace-only lines,
+					// very long lines, control characters, no final newline
+					lines := []string{"ls\n", "   \r", "\t\n", "\r\n", "uname -a\r\n", " \n", strings.Repeat("A", 5000) + "\n", "\x03\x04\x1b[A\n", "cat /etc/passwd | head -1\r", "exit"}
+					var in []byte
+					for j := r.Range(1, 6); j > 0; j-- {
+						in = append(in, lines[r.Intn(len(lines))]...)
+					}
+					in = append(in, "exit\n"...)
+					withTimeout(2*time.Second, func() { ch.Write(in) })
 				}
 			}
 			withTimeout(time.Second, func() { ch.Close() })
@@ -124,7 +133,9 @@ func sshSpecial(cc *lab.CliConn, s gen.Service, sc scenario, c int) (reply int) 
 			typ := r.PickS([]string{"direct-tcpip", "forwarded-tcpip", "x11", "auth-agent@openssh.com"})
 			withTimeout(2*time.Second, func() { conn.OpenChannel(typ, extra) })
 		case 4:
-			withTimeout(2*time.Second, func() { conn.SendRequest(r.PickS([]string{"tcpip-forward", "keepalive@openssh.com"}), true, r.Bytes(r.Intn(9))) })
+			withTimeout(2*time.Second, func() {
+				conn.SendRequest(r.PickS([]string{"tcpip-forward", "keepalive@openssh.com"}), true, r.Bytes(r.Intn(9)))
+			})
 		case 5:
 			return
 		}
